@@ -1279,10 +1279,12 @@ namespace sim
             v.op_index = q.index;
             res.violations.push_back(v);
           }
-        if (op.op == "create" && op.expect == "accept" && r.status == 1 && r.what.find("Delaunator:") != std::string::npos)
+        if (op.op == "create" && op.expect == "accept" && r.status == 1
+            && (r.what.find("Delaunator:") != std::string::npos || r.what.find("not triangulation") != std::string::npos))
           {
-            // the triangulation of a depth surface gave up on these points (nearly collinear hull points): a refusal
-            // with a message, which the property allows for any file; nothing is expected of such a document
+            // the triangulation of a depth surface gave up on these points (nearly collinear hull points, or a
+            // generated polygon whose integer coordinates all lie on one line): a refusal with a message, which
+            // the property allows for any file; nothing is expected of such a document
             res.counters["refused_by_triangulation"]++;
           }
         else if (op.op == "create" && op.expect == "accept" && r.status != 0 && !r.alloc_fired)
